@@ -213,6 +213,10 @@ def load(loc):
     for i in loc.path:
         if isinstance(v, (AggV, EnumV)):
             v = v.fields.get(i, TOP)
+        elif isinstance(v, BytesV) and isinstance(i, int) and 0 <= i < len(v.b):
+            v = K(v.b[i])
+        elif isinstance(v, ListV) and isinstance(i, int) and 0 <= i < len(v.cells):
+            v = v.cells[i].v
         else:
             return TOP
     return v
@@ -424,7 +428,17 @@ class Engine:
                         store(loc, EnumV(adt, pr["v"], d, {}))
                 elif isinstance(v, TopV) and not for_write:
                     store(loc, EnumV(None, pr["v"], None, {}))
-            elif k in ("index", "constindex", "subslice"):
+            elif k == "index":
+                ic = fr.env.get(pr["l"])
+                iv_ = self.resolve(st, ic.v) if ic is not None else None
+                if isinstance(iv_, K) and isinstance(iv_.v, int) and not isinstance(iv_.v, bool):
+                    base = self.resolve(st, load(loc))
+                    if isinstance(base, RefV):
+                        loc = Loc(base.cell, base.path)
+                    loc = Loc(loc.cell, loc.path + (iv_.v,))
+                else:
+                    return None
+            elif k in ("constindex", "subslice"):
                 return None
             else:
                 return None
@@ -457,6 +471,8 @@ class Engine:
         if "bytes" in c:
             cell = Cell(BytesV(bytes(c["bytes"])), "const")
             return RefV(cell)
+        if "array_bytes" in c:
+            return BytesV(bytes(c["array_bytes"]))
         if "fn" in c:
             return FnV(self.unit_qual(fr, strip_generics(c["fn"])), c.get("gargs", ()))
         if "fbits" in c:
@@ -498,6 +514,8 @@ class Engine:
                 elif t["k"] == "return":
                     c = fr.env.get(0)
                     return c.v if c else None
+                elif t["k"] == "call" and self._const_call(st, fr, t):
+                    fr.bi = t["target"]
                 else:
                     return None
         except Exception:
@@ -521,11 +539,29 @@ class Engine:
                 elif t["k"] == "return":
                     c = fr.env.get(0)
                     return c.v if c else None
+                elif t["k"] == "call" and self._const_call(st, fr, t):
+                    fr.bi = t["target"]
                 else:
                     return None
         except Exception:
             return None
         return None
+
+    def _const_call(self, st, fr, t):
+        """a call inside a constant initialiser: only modelled pure constructors are evaluated"""
+        c = t["callee"]
+        if "indirect" in c or t.get("target") is None or t.get("dest") is None:
+            return False
+        name = strip_generics(c.get("path", ""))
+        m = self.models.get(strip_generics(c.get("resolved") or "")) or self.models.get(name)
+        if m is None:
+            return False
+        args = [self.operand(st, fr, a) for a in t["args"]]
+        r = m(self, st, fr, t, name, name, args)
+        if r is NotImplemented or isinstance(r, list):
+            return False
+        store(self.place_loc(st, fr, t["dest"], for_write=True), r)
+        return True
 
     def operand(self, st, fr, o):
         k = o["k"]
@@ -1530,6 +1566,33 @@ def m_deref_id(eng, st, fr, t, name, rname, args):
     return args[0]
 
 
+def m_range_incl_new(eng, st, fr, t, name, rname, args):
+    return AggV("core::ops::RangeInclusive", {0: args[0], 1: args[1], 2: K(False)})
+
+
+def m_range_contains(eng, st, fr, t, name, rname, args):
+    r = eng.resolve(st, args[0])
+    x = eng.resolve(st, args[1])
+    n = 0
+    while isinstance(r, RefV) and n < 4:
+        r = eng.resolve(st, load(Loc(r.cell, r.path)))
+        n += 1
+    n = 0
+    while isinstance(x, RefV) and n < 4:
+        x = eng.resolve(st, load(Loc(x.cell, x.path)))
+        n += 1
+    if not (isinstance(r, AggV) and isinstance(x, K)):
+        return NotImplemented
+    lo, hi = eng.resolve(st, r.fields.get(0)), eng.resolve(st, r.fields.get(1))
+    if not (isinstance(lo, K) and isinstance(hi, K)):
+        return NotImplemented
+    if r.kind.split("::")[-1] == "RangeInclusive":
+        return K(lo.v <= x.v <= hi.v)
+    if r.kind.split("::")[-1] == "Range":
+        return K(lo.v <= x.v < hi.v)
+    return NotImplemented
+
+
 def m_mem_replace(eng, st, fr, t, name, rname, args):
     r = eng.resolve(st, args[0])
     if not isinstance(r, RefV):
@@ -1618,6 +1681,9 @@ DEFAULT_MODELS = {
     "core::ops::DerefMut::deref_mut": m_deref_id,
     "core::clone::Clone::clone": m_clone,
     "core::mem::replace": m_mem_replace,
+    "core::ops::RangeInclusive::new": m_range_incl_new,
+    "core::ops::RangeInclusive::contains": m_range_contains,
+    "core::ops::Range::contains": m_range_contains,
     "core::mem::swap": m_mem_swap,
     "core::mem::take": m_mem_take_int,
 }
